@@ -232,8 +232,8 @@ CommonAncestor(pp, cp) ==
 \* mergeInto / buildMergeObject / commits.Diff
 Merge(child, parent) ==
   /\ Allowed("merge") /\ Exists(child) /\ Exists(parent) /\ child # parent
-  /\ LET rec == [op |-> "merge", b |-> parent, child |-> child]
-         base == CommonAncestor(Path(tip[parent]), Path(tip[child]))
+  /\ LET base == CommonAncestor(Path(tip[parent]), Path(tip[child]))
+         rec == [op |-> "merge", b |-> parent, child |-> child, base |-> base]
          B == Fold(base).o  C == Fold(tip[child]).o  P == Fold(tip[parent]).o
          cAdds == C \ B   cDels == B \ C                 \* child patch over the base snapshot
          pAdds == P \ B   pDels == B \ P                 \* parent patch
@@ -243,7 +243,7 @@ Merge(child, parent) ==
      IF base = 0 THEN Fail(rec)                          \* cannot locate common ancestor
      ELSE IF dels \cap pDels # {} THEN Fail(rec)         \* delete conflict
      ELSE IF adds = {} /\ dels = {} THEN Fail(rec)       \* difference is empty
-     ELSE Commit(rec @@ [base |-> base], parent, adds, dels, {}, {}, <<>>,
+     ELSE Commit(rec, parent, adds, dels, {}, {}, <<>>,
                  \* the property: parent' = parent + (child added since base) - (child deleted since base)
                  \* (bags: what the child added and the parent has not itself added since the base is added once --
                  \*  for duplicate-free data this is parent \cup (child \ base) \ (base \ child))
